@@ -215,6 +215,11 @@ def gen_op15(ch, rng, run):
     if x < 0.75:
         pis = [h for h in ch.hs if N[h].kind == 'pi']
         if pis: return ('PD', rng.choice(pis), frag())
+    if x < 0.79:
+        # an attribute value assembled from several Text children (each storable on its own)
+        ats = [h for h in ch.hs if N[h].kind == 'at']
+        txd = [h for h in ch.hs if N[h].kind == 'tx' and N[h].p is None]
+        if ats and txd: return ('AC', rng.choice(ats), rng.choice(txd))
     # tree edits: mostly attach detached nodes (so that what was created gets printed)
     k = rng.choice(['AC', 'AC', 'AC', 'IB', 'IB', 'RC', 'RM'])
     r = ch.receiver()
@@ -463,8 +468,8 @@ def classify15(f):
             return ('C15-ADJACENT-TEXT', 'two adjacent Text nodes, each storable, print as character data containing "]]>"')
         if 'text-with-cdend-in-content' in feats:
             return ('C15-ATTR-TEXT-MOVED', 'a Text node holding "]]>" (legal in an attribute value, where it was created) was moved into element content')
-        if 'attr-both-quotes' in feats:
-            return ('C15-ATTR-QUOTES', 'an attribute value assembled from child nodes contains both quotation marks: no quoting is possible without escaping')
+        # ('attr-both-quotes' was the class of defect C15-ATTR-QUOTES, repaired by /repo 07dd53f: a fixed entry suppresses
+        #  nothing, so there is no classifier for it any more -- seeded change W7-C15-2 was swallowed by the one kept here)
         if 'element-before-doctype' in feats:
             return ('C15-ELEMENT-BEFORE-DOCTYPE', 'an element was inserted before the document type declaration')
     return None
@@ -495,6 +500,10 @@ CORPUS = [
     (['<r>a</r>'], [('CT', 0, ']]'), ('CT', 0, '>'), ('AC', 1, 3), ('AC', 1, 4)]),                                    # adjacent Text nodes
     (['<r a="x">t</r>'], [('SV', 2, ']]>'), ('RC', 1, 5, 4)]),                                                        # attribute text into content
     (['<r a="x">t</r>'], [('AD', 3, '"'), ('AD', 3, "'")]),                                                           # both quotes
+    # an attribute value made of SEVERAL Text children that hold the two kinds of quotation mark separately (W7-C15-2)
+    (['<r a="it\'s">t</r>'], [('CT', 0, ' "so"'), ('AC', 2, 5), ('CT', 0, "'"), ('AC', 2, 6), ('CT', 0, '"'), ('IB', 2, 7, 3)]),
+    (['<r a="x\'yz">t</r>'], [('ID', 3, 3, '"'), ('ST', 3, 3), ('ST', 3, 1)]),
+    (["<r a='q\"'>t</r>"], [('CT', 0, "'"), ('AC', 2, 5), ('CT', 0, '&'), ('AC', 2, 6), ('CT', 0, '<'), ('AC', 2, 7)]),
     (['<!DOCTYPE r []><r/>'], [('RM', 0, 2), ('CE', 0, 'n'), ('IB', 0, 3, 1)]),                                       # element before the doctype
     (['<!DOCTYPE r [<!ENTITY e "v">]><r>&e;</r>'], [('RM', 0, 1)]),
     (['<r><a/><b/></r>'], [('IB', 1, 2, 2), ('RC', 1, 3, 3), ('AC', 1, 1), ('AC', 2, 1), ('IB', 1, 3, 2), ('RC', 1, 2, 3)]),
